@@ -18,9 +18,9 @@ Section Streams.
 Variables (p : profile) (e : endian) (file : bytes) (ds : list dirent).
 Hypothesis Hwf : wf_bytes file.
 Hypothesis Hlen : blen file < T62.
-Let K := ALLOC_C * blen file.
+Let K := ALLOC_FILE_C * blen file.
 
-Ltac stream L := eapply get_stream_sat; [exact Hwf|]; intros s Hs Hl; apply L; try assumption; unfold K, ALLOC_C, T62 in *; lia.
+Ltac stream L := eapply get_stream_sat; [exact Hwf|]; intros s Hs Hl; pose proof (blen_nonneg _ s); apply L; try assumption; unfold K, ALLOC_FILE_C, ALLOC_C, T62 in *; lia.
 
 Lemma s_si_sat : sat K (fun _ => True) (s_si e file ds).
 Proof.
@@ -35,6 +35,10 @@ Qed.
 Lemma s_ms_sat : sat K (fun _ => True) (s_ms e file ds).
 Proof.
   unfold s_ms. eapply get_stream_sat; [exact Hwf|]. intros s Hs Hl. apply sat_lift, read_misc_info_rsat.
+Qed.
+Lemma s_cp_sat : sat K (fun _ => True) (s_cp e file ds).
+Proof.
+  unfold s_cp. eapply get_stream_sat; [exact Hwf|]. intros s Hs Hl. apply read_crashpad_info_sat; [exact Hwf | unfold K; lia].
 Qed.
 Lemma s_tl_sat : sat K (fun _ => True) (s_tl p e file ds).
 Proof. unfold s_tl. stream read_thread_list_sat. Qed.
@@ -88,7 +92,7 @@ Proof. intros e file si r H. unfold f_ex. eapply fld_rsat. exact H. Qed.
    within ALLOC_C * |file| *)
 Theorem run_case_fixed_total : forall p file, wf_bytes file -> blen file < T62 ->
   (forall tag f, In (tag, f) (o_fields (run_case Fixed p file)) -> (forall t, f <> FPan t) /\ f <> FNoFuel) /\
-  Forall (fun a => 0 <= a <= ALLOC_C * blen file) (o_ledger (run_case Fixed p file)).
+  Forall (fun a => 0 <= a <= ALLOC_FILE_C * blen file) (o_ledger (run_case Fixed p file)).
 Proof.
   intros p file Hwf Hlen. unfold run_case.
   pose proof (read_header_rsat file Hwf) as (Hp & Hn & _).
@@ -118,6 +122,7 @@ Proof.
       * unfold f_kv. eapply fld_rsat. apply raw_stream_rsat; exact Hwf.
       * unfold f_lines. eapply fld_rsat. apply raw_stream_rsat; exact Hwf.
       * unfold f_ma. eapply fld_rsat. apply (s_mem_sat p e file ds Hwf Hlen).
+      * eapply fld_rsat. apply (s_cp_sat e file ds Hwf).
     + repeat (apply Forall_app; split).
       * apply (s_tl_sat p e file ds Hwf Hlen).
       * apply (s_ml_sat p e file ds Hwf Hlen).
@@ -128,6 +133,7 @@ Proof.
       * apply (s_ti_sat p e file ds Hwf Hlen).
       * apply (s_tn_sat p e file ds Hwf Hlen).
       * apply (s_hd_sat p e file ds Hwf Hlen).
+      * apply (s_cp_sat e file ds Hwf).
   - cbn [o_fields o_ledger]. split; [|constructor].
     intros tag f [Hin|[]]. inversion Hin; subst. split; [intros t|]; discriminate.
   - exfalso; apply (Hp t); reflexivity.
@@ -288,7 +294,7 @@ Lemma terminates : forall (p : profile) (file : bytes), wf_bytes file -> blen fi
   forall tag f, In (tag, f) (o_fields (run_case Fixed p file)) -> f <> FNoFuel.
 Proof. intros p file H1 H2 tag f H. exact (proj2 (proj1 (run_case_fixed_total p file H1 H2) tag f H)). Qed.
 Lemma alloc_backed : forall (p : profile) (file : bytes), wf_bytes file -> blen file < T62 ->
-  forall a, In a (o_ledger (run_case Fixed p file)) -> 0 <= a <= ALLOC_C * blen file.
+  forall a, In a (o_ledger (run_case Fixed p file)) -> 0 <= a <= ALLOC_FILE_C * blen file.
 Proof.
   intros p file H1 H2 a H. pose proof (proj2 (run_case_fixed_total p file H1 H2)) as HF.
   rewrite Forall_forall in HF. exact (HF a H).
@@ -311,4 +317,12 @@ Proof.
   - split; [intros t|]; discriminate.
   - exfalso; apply (H1 t); reflexivity.
   - exfalso; apply H2; reflexivity.
+Qed.
+
+Lemma crashpad_info_total : forall e all b, wf_bytes all ->
+  (forall t, snd (read_crashpad_info e all b) <> Pan t) /\ snd (read_crashpad_info e all b) <> NoFuel /\
+  (forall a, In a (fst (read_crashpad_info e all b)) -> 0 <= a <= ALLOC_FILE_C * blen all).
+Proof.
+  intros e all b Hwf.
+  exact (sat_fields _ _ _ _ (read_crashpad_info_sat e all b (ALLOC_FILE_C * blen all) Hwf (Z.le_refl _))).
 Qed.
